@@ -11,6 +11,7 @@ from hv.gen import vocab
 from hv.gen.files import scratch_dir, write_case
 from hv.gen.kineto_sim import Opts, sim_case
 from hv.model.raw import complete_rows, is_device, links
+from hv.model.trace import kept_after_load
 
 ID = "C15"
 RULE = ("G-sim traces (1-3 ranks, launches with the documented launch names cudaLaunchKernel / cudaLaunchKernelExC / MTIA "
@@ -20,7 +21,7 @@ RULE = ("G-sim traces (1-3 ranks, launches with the documented launch names cuda
         "end)) over the model's linked launch/activity pairs == rows returned, per requested rank. Non-trivial: some rank has "
         ">= 1 clipped (negative raw) delay, >= 1 positive delay and >= 1 memory launch. Distinct = distinct canonical case JSON.")
 ASSUMPTIONS = [
-    "fewer than two ProfilerStep annotations (no trimming; trimming is C12)",
+    "with >= 2 profiler steps the pairs are those whose launch call the load keeps (C12's trimming model)",
     "kernel launches = the names the API documents (cudaLaunchKernel, cudaLaunchKernelExC, the MTIA launch)",
     "correlation ids unique per pair within one file (ranks may use the same id range)",
 ]
@@ -31,6 +32,8 @@ MEM_LAUNCH = {vocab.MEMCPY_LAUNCH, vocab.MEMSET_LAUNCH}
 def expected(events, include_memory: bool) -> Counter:
     rows = complete_rows(events)
     lk = links(rows)
+    keep, _ = kept_after_load(rows, include_last=False)  # >= 2 profiler steps: only what the load keeps is analysed (C12)
+    rows = [r for r in rows if r.id in keep]
     by_id = {r.id: r for r in rows}
     names = KERNEL_LAUNCH | (MEM_LAUNCH if include_memory else set())
     out: Counter = Counter()
@@ -67,6 +70,8 @@ def check(case: Dict[str, Any]) -> CaseInfo:
         require(got == want, "rows:multiset",
                 lambda: f"rank {rd['rank']} memory={p['memory']}: missing {sorted((want - got).elements())} extra {sorted((got - want).elements())}")
         rows = complete_rows(rd["events"])
+        if len(kept_after_load(rows, include_last=False)[0]) < len(rows):
+            classes.append("trimmed_by_last_profiler_step")
         lk = links(rows)
         by_id = {r.id: r for r in rows}
         raw = [by_id[lk[r.id]].ts - r.ts - r.dur for r in rows if r.stream == -1 and not is_device(r)
@@ -96,7 +101,7 @@ def check(case: Dict[str, Any]) -> CaseInfo:
 
 @st.composite
 def c15_case(draw):
-    o = Opts(steps=[0, 1], launch_names=vocab.DOC_KERNEL_LAUNCHES, w_launch=7, w_sync=2, max_top=5, early_kernels=True)
+    o = Opts(steps=[0, 1, 2, 3], launch_names=vocab.DOC_KERNEL_LAUNCHES, w_launch=7, w_sync=2, max_top=5, early_kernels=True)
     case = draw(sim_case(o, max_ranks=3))
     all_ranks = [r["rank"] for r in case["ranks"]]
     mode = draw(st.sampled_from(["none", "empty", "subset", "subset", "all"] if 0 in all_ranks else ["subset", "all", "subset"]))  # None / [] mean rank 0
@@ -116,5 +121,5 @@ def campaigns(tier: str) -> List[Campaign]:
     return [Campaign("launch_stats", c15_case(), check, quick=480, thorough=24000, quick_shards=8,
                      required_classes={"clipped_delay": 0.2, "positive_delay": 0.2, "memory_launch": 0.2,
                                        "linked_non_launch_call": 0.1, "without_memory": 0.1, "mtia_launch": 0.05,
-                                       "multi_rank_request_same_correlation_ids": 0.015},
+                                       "multi_rank_request_same_correlation_ids": 0.015, "trimmed_by_last_profiler_step": 0.15},
                      sample_view=view)]
